@@ -43,7 +43,16 @@ pub fn run(ctx: &mut Ctx, n: usize, seed: u64, depth: u32) {
         let decoy = r.gen_bool(0.2);
         let hk = if r.gen_bool(0.3) { Some("H1") } else { None };
         // a queue at least as long as the number of disclosures: 16 random-looking bytes each, distinct per case
-        let queue: Vec<String> = (0..400).map(|i| { let mut b = [0u8; 16]; b[..8].copy_from_slice(&(case as u64).to_be_bytes()); b[8..].copy_from_slice(&(i as u64 ^ seed.rotate_left(17)).to_be_bytes()); b64(&b) }).collect();
+        // (a queue that runs dry makes `generate_salt_mock` panic with the queue's mutex held - outside C16, which speaks of queued salts)
+        fn nodes(v: &Value) -> usize {
+            match v {
+                Value::Object(o) => o.values().map(|x| 1 + nodes(x)).sum(),
+                Value::Array(a) => a.iter().map(|x| 1 + nodes(x)).sum(),
+                _ => 0,
+            }
+        }
+        let qlen = 400.max(nodes(&claims) + 16);
+        let queue: Vec<String> = (0..qlen).map(|i| { let mut b = [0u8; 16]; b[..8].copy_from_slice(&(case as u64).to_be_bytes()); b[8..].copy_from_slice(&(i as u64 ^ seed.rotate_left(17)).to_be_bytes()); b64(&b) }).collect();
         ctx.mock_queue = queue.clone();
         ctx.mock_pair = ctx.case;
         let mut issuer = new_issuer(key, alg);
